@@ -44,10 +44,28 @@ pub enum LOp {
 pub struct LocalPlan {
     pub env: Env,
     pub kind: SharedKind,
+    /// histogram kinds only: an update of odd weight exponent observes -(2^k) instead of 2^k, so that
+    /// batches with negative, zero-crossing and cancelling sums occur
+    #[serde(default)]
+    pub signed: bool,
     /// every thread starts with one local handle (index 0)
     pub threads: Vec<Vec<LOp>>,
 }
 const TUPLES: &[&str] = &["x", "y"];
+
+/// observed value of an update with weight exponent `bit`
+fn val(bit: u8, signed: bool) -> f64 {
+    let v = (1u64 << bit) as f64;
+    if signed && bit % 2 == 1 {
+        -v
+    } else {
+        v
+    }
+}
+/// exact sum of the values of all updates in `bits`
+fn sum_of(bits: u64, signed: bool) -> f64 {
+    (0..64u8).filter(|b| bits & (1u64 << b) != 0).map(|b| val(b, signed)).sum()
+}
 
 fn gen_plan(seed: u64) -> LocalPlan {
     let mut r = Rng::new(seed, 1);
@@ -114,7 +132,8 @@ fn gen_plan(seed: u64) -> LocalPlan {
     }
     let faults = r.chance(40);
     let env = Env::swarm(&mut r, nthreads, nops as u64 * 6 + 10, faults);
-    LocalPlan { env, kind, threads }
+    let signed = matches!(kind, SharedKind::Histogram | SharedKind::HistogramVec) && r.chance(40);
+    LocalPlan { env, kind, signed, threads }
 }
 
 enum Shared {
@@ -154,13 +173,13 @@ impl Shared {
             Shared::HV(c) => Loc::HV(c.local()),
         }
     }
-    fn direct(&self, w: u64, t: usize) {
+    fn direct(&self, w: u64, t: usize, hv: f64) {
         match self {
             Shared::C(c) => c.inc_by(w as f64),
             Shared::IC(c) => c.inc_by(w),
-            Shared::H(c) => c.observe(w as f64),
+            Shared::H(c) => c.observe(hv),
             Shared::CV(c) => c.with_label_values(&[TUPLES[t]]).inc_by(w as f64),
-            Shared::HV(c) => c.with_label_values(&[TUPLES[t]]).observe(w as f64),
+            Shared::HV(c) => c.with_label_values(&[TUPLES[t]]).observe(hv),
         }
     }
     /// value per tuple ("" for scalar kinds); histograms: (sum, count)
@@ -187,13 +206,13 @@ impl Shared {
     }
 }
 impl Loc {
-    fn add(&mut self, w: u64, t: usize) {
+    fn add(&mut self, w: u64, t: usize, hv: f64) {
         match self {
             Loc::C(c) => c.inc_by(w as f64),
             Loc::IC(c) => c.inc_by(w),
-            Loc::H(c) => c.observe(w as f64),
+            Loc::H(c) => c.observe(hv),
             Loc::CV(c) => c.with_label_values(&[TUPLES[t]]).inc_by(w as f64),
-            Loc::HV(c) => c.with_label_values(&[TUPLES[t]]).observe(w as f64),
+            Loc::HV(c) => c.with_label_values(&[TUPLES[t]]).observe(hv),
         }
     }
     fn flush(&self) {
@@ -278,6 +297,7 @@ fn execute(plan: &LocalPlan, mode: Mode) -> RunOut {
         let ops = ops.clone();
         let shared = shared.clone();
         let results = results.clone();
+        let signed = plan.signed;
         sim.spawn(&format!("sim{}", t), false, move |ctx| {
             // local handles are !Sync and live on their owner thread
             let mut hs: Vec<Option<Loc>> = vec![Some(shared.local())];
@@ -287,7 +307,7 @@ fn execute(plan: &LocalPlan, mode: Mode) -> RunOut {
                 let r = crate::seams::catch(std::panic::AssertUnwindSafe(|| match op {
                     LOp::Add { h, bit, t } => {
                         if let Some(Some(l)) = hs.get_mut(*h) {
-                            l.add(1u64 << bit, *t);
+                            l.add(1u64 << bit, *t, val(*bit, signed));
                         }
                         LRes::None
                     }
@@ -326,7 +346,7 @@ fn execute(plan: &LocalPlan, mode: Mode) -> RunOut {
                         _ => LRes::None,
                     },
                     LOp::Direct { bit, t } => {
-                        shared.direct(1u64 << bit, *t);
+                        shared.direct(1u64 << bit, *t, val(*bit, signed));
                         LRes::None
                     }
                     LOp::Read => LRes::Read(shared.read()),
@@ -468,7 +488,8 @@ fn execute(plan: &LocalPlan, mode: Mode) -> RunOut {
                             }
                         }
                         let want = p.get(&key(*t)).copied().unwrap_or(0);
-                        if sum != want as f64 || cnt.map(|c| c != want.count_ones() as u64).unwrap_or(false) {
+                        let want_sum = if is_hist { sum_of(want, plan.signed) } else { want as f64 };
+                        if sum != want_sum || cnt.map(|c| c != want.count_ones() as u64).unwrap_or(false) {
                             out.violations.push(Violation::new("C12/local-get", "C12/local-get", format!("local handle {} of thread {} reports {} (count {:?}) but its unflushed updates sum to {}", h, t, sum, cnt, want)));
                         }
                     }
@@ -536,9 +557,10 @@ fn compare(plan: &LocalPlan, model: &BTreeMap<usize, u64>, got: &BTreeMap<String
     }
     for (k, w) in &want {
         let (sum, cnt) = got[k];
-        if sum != *w as f64 || (is_hist && cnt != w.count_ones() as u64) {
-            let extra = f2u(sum).map(|u| u & !*w).unwrap_or(0);
-            let missing = f2u(sum).map(|u| *w & !u).unwrap_or(*w);
+        let want_sum = if is_hist { sum_of(*w, plan.signed) } else { *w as f64 };
+        if sum != want_sum || (is_hist && cnt != w.count_ones() as u64) {
+            let extra = if plan.signed { 0 } else { f2u(sum).map(|u| u & !*w).unwrap_or(0) };
+            let missing = if plan.signed { 0 } else { f2u(sum).map(|u| *w & !u).unwrap_or(*w) };
             let key = if missing != 0 && extra == 0 {
                 "C12/handover:lost"
             } else if extra != 0 && missing == 0 {
@@ -546,7 +568,7 @@ fn compare(plan: &LocalPlan, model: &BTreeMap<usize, u64>, got: &BTreeMap<String
             } else {
                 "C12/handover"
             };
-            out.violations.push(Violation::new("C12/handover", key, format!("{}: shared {:?}{} holds {} (count {}) but direct updates plus flushed batches sum to {} (missing {:#x}, unexpected {:#x})", when, plan.kind, if k.is_empty() { String::new() } else { format!("{{l={:?}}}", k) }, sum, cnt, w, missing, extra)));
+            out.violations.push(Violation::new("C12/handover", key, format!("{}: shared {:?}{} holds {} (count {}) but direct updates plus flushed batches sum to {} (count {}; missing {:#x}, unexpected {:#x})", when, plan.kind, if k.is_empty() { String::new() } else { format!("{{l={:?}}}", k) }, sum, cnt, want_sum, w.count_ones(), missing, extra)));
         }
     }
 }
